@@ -161,4 +161,41 @@ def view (es : List (Event R)) : List (String × OutRules R) := es.foldl applyEv
 
 end
 
+
+/-! ## Interface for composition (C01)
+
+* **State**: `Arc R` (`Arc.new R` = `NewActiveRulesCalculator()`, profile path only); `R` is the
+  opaque type of rule contents (`reflect.DeepEqual` is `=`).
+* **Inputs**: `RawUpd R` — a datastore update for a local endpoint (profile-id list) or for a
+  profile's rules, with the validators' verdict; `filter : RawUpd R → Upd R` is
+  `ValidationFilter.OnUpdates` (invalid ⇒ deletion); `Upd R` is what the calculator sees.
+* **Step**: `step : Arc R → Upd R → Arc R` (`ActiveRulesCalculator.OnUpdate`), `run`,
+  `runRaw st us = run st (us.map filter)` (filter in front of the calculator).
+* **Output**: `Event R` (`active p rules` = `RuleScanner.OnProfileActive(p, rules | &DummyDropRules)`,
+  `inactive p` = `OnProfileInactive(p)`); `st.out` is the whole log; `view st.out` the rule
+  scanner's resulting table (profile ↦ `dummyDrop` | `real r`).
+* **Spec refined** (below): the table is a function of the CURRENT inputs only —
+  `referenced st p` (some stored endpoint lists `p`; `st.epProfiles` / `st.profiles` are
+  last-valid-writer-wins, `Props/C05.lean` `endpoint_table_after` / `profile_table_after`) and
+  `outOf st p`.  `Props/C05.lean`: `missing_profile_denies`, `known_profile_real_rules`,
+  `unreferenced_profile_inactive` (together: `alGet p (view out) = if referenced then some (outOf st p) else none`),
+  `invalid_eq_absent`, `invalid_content_irrelevant`.
+-/
+
+section Spec
+variable {R : Type} [DecidableEq R]
+
+/-- what the rule scanner must hold for an active profile: its real rules if known, else the
+deny stand-in -/
+def outOf (st : Arc R) (p : String) : OutRules R :=
+  match alGet p st.profiles with
+  | some r => .real r
+  | none => .dummyDrop
+
+/-- some stored (valid, present) endpoint lists profile `p` -/
+def referenced (st : Arc R) (p : String) : Prop :=
+  ∃ ep ids, alGet ep st.epProfiles = some ids ∧ p ∈ ids
+
+end Spec
+
 end CalicoVerif.C05
